@@ -386,6 +386,12 @@ def enumerate_cases(tier):
         for n in (900, 17000, 30000):
             cases.append({"cls": "i", "argv": ["select 1" + (" %s 1" % sign) * n + " from ."], "expect2": False})
             cases.append({"cls": "i", "argv": ["name from . where size > 1" + (" %s 1" % sign) * n], "expect2": False})
+    # the same chains with bracketed operands or function calls as operands (each opens an expression of its own)
+    for term in ("(1)", "length(name)", "{size}", "abs(-1)"):
+        for n in (900, 9000):
+            n = min(n, 120000 // (len(term) + 3))
+            cases.append({"cls": "i", "argv": ["select " + term + (" + " + term) * n + " from ."], "expect2": False})
+            cases.append({"cls": "i", "argv": ["name from . where " + term + (" * " + term) * n + " > 0"], "expect2": False})
     cases.append({"cls": "i", "argv": ["select concat(" + "name, " * 20000 + "name) from ."], "expect2": False})
     cases.append({"cls": "i", "argv": ["select name" + ", name" * 20000 + " from . limit 1"], "expect2": False})
     # a bracket opened right after a function word and never closed; a `not` with nothing to negate
